@@ -265,6 +265,8 @@ def install(P):
         if name is None or isinstance(name, tuple):
             name = find_fn("deserialize", first_param="D", ret=ty)
         if name is None or isinstance(name, tuple):
+            name = find_fn("deserialize", ret=ty)          # hand-written impl with another name for the deserializer type
+        if name is None or isinstance(name, tuple):
             raise Unsupported(f"serde: no Deserialize impl found in MIR for {ty} ({name})")
         f = P.funcs[name]
         tenv = {}
@@ -357,6 +359,49 @@ def install(P):
         d = deref(c.args[0])
         name = _visitor_fn("visit_str", c)
         return P.call(ctx, name, [c.args[-1], d.key])
+
+    class EnumAcc:
+        def __init__(self, tv):
+            self.tv = tv
+
+    class VariantAcc:
+        pass
+
+    @P.summary("Deserializer::deserialize_enum")
+    def _denum(ctx, c):
+        """externally tagged enums with unit variants only: the document holds the variant's name as a string"""
+        d = deref(c.args[0])
+        if isinstance(d, MissingDeser):
+            return err(SerdeErr("missing_field", d.field))
+        tv = d.tv
+        if tv.decide_kind(ctx) != "str":
+            if tv.kind == "table":
+                raise Unsupported("deserialize_enum from a table (data-carrying variants)")
+            return invalid_type(tv, "enum")
+        if tv.scalar is None:
+            tv.scalar = ctx.fresh(tv.name, z3.StringSort())
+        return P.call(ctx, _visitor_fn("visit_enum", c), [c.args[-1], EnumAcc(tv)])
+
+    @P.summary("EnumAccess::variant", "EnumAccess::variant_seed")
+    def _evariant(ctx, c):
+        ea = deref(c.args[0])
+        fty = norm_ty(c.gen)
+        if "::__" not in fty:
+            fty = norm_ty(c.resolve(c.gen))
+        fty = split_top(fty)[0] if fty.startswith("(") else fty
+        name = need_fn("deserialize", first_param="__D", ret=fty)
+        r = P.call(ctx, name, [KeyDeser(ea.tv.scalar)])
+        if r.variant == "Err":
+            return r
+        return Ok(Adt("tuple", None, [r.fields[0], VariantAcc()]))
+
+    @P.summary("VariantAccess::unit_variant")
+    def _unit_variant(ctx, c):
+        return Ok(UNIT)
+
+    @P.summary("Error::unknown_variant", "de::Error::unknown_variant")
+    def _unknown_variant(ctx, c):
+        return SerdeErr("unknown_variant", sval(c.args[0]))
 
     @P.summary("Deserializer::deserialize_option")
     def _dopt(ctx, c):
